@@ -136,6 +136,8 @@ def worker_env(extra=None):
 	env.setdefault('HDF5_USE_FILE_LOCKING', 'FALSE')
 	if extra:
 		env.update({k: str(v) for k, v in extra.items()})
+	if env.get('VERIF_OVERLAY'):
+		env['PYTHONPATH'] = env['VERIF_OVERLAY'] + ':' + env['PYTHONPATH']
 	return env
 
 
@@ -150,7 +152,21 @@ def _run_one(pid, tier, seed, shard, tmpdir, timeout):
 	spec = tmpdir / f'shard{idx}.json'
 	out = tmpdir / f'out{idx}.json'
 	spec.write_text(jdump(dict(pid=pid, tier=tier, seed=seed, shard=shard, workdir=str(tmpdir / f'w{idx}'))))
-	env = worker_env(shard.get('env'))
+	extra_env = dict(shard.get('env') or {})
+	san = shard.get('sanitizer')
+	if san:
+		from vf import native
+		st = native.source_state(REPO)
+		if st['stale_c'] or st['missing_c']:
+			return dict(evals=0, counters={}, samples=[], violations=[], nviol=0, viol_per_mech={}, inconclusive=[], sets={},
+			            notes={'sanitizer_stage': {shard.get('name'): f'INCONCLUSIVE stage=sanitizer reason=stale-generated-C {st["stale_c"] or st["missing_c"]}'}},
+			            hashes=__import__('numpy').zeros(0, 'u8'), rc=0, wall=0.0, log_tail=''), None, ''
+		try:
+			overlay = native.build(san, REPO)
+		except Exception as e:
+			return None, f'sanitizer overlay {san} could not be built: {e}', ''
+		extra_env.update(native.sanitizer_env(san, overlay, str(tmpdir / f'san{idx}')))
+	env = worker_env(extra_env)
 	cmd = shard.get('argv_prefix', []) + [PY, '-m', 'vf.worker', str(spec), str(out)]
 	log = tmpdir / f'log{idx}.txt'
 	t0 = time.time()
@@ -165,12 +181,31 @@ def _run_one(pid, tier, seed, shard, tmpdir, timeout):
 		tail = log.read_bytes()[-3000:].decode('utf8', 'replace')
 	except OSError:
 		pass
+	san_reports = []
+	if san in ('asan',):
+		from vf import native
+		try:
+			san_reports = native.scan_sanitizer_log(log.read_bytes().decode('utf8', 'replace'))
+		except OSError:
+			pass
 	if not out.exists():
+		if san_reports:
+			viol = [dict(mech=f'sanitizer-{k}', msg=txt[:1500], witness=dict(shard=shard.get('name'), log_tail=tail[-1500:]), shard=shard.get('name')) for k, txt in san_reports[:3]]
+			return dict(evals=0, counters={'sanitizer_reports': len(san_reports)}, samples=[], violations=viol, nviol=len(viol),
+			            viol_per_mech={v['mech']: 1 for v in viol}, inconclusive=[], sets={}, notes={},
+			            hashes=__import__('numpy').zeros(0, 'u8'), rc=0, wall=time.time() - t0, log_tail=tail), None, tail
 		return None, f'shard {shard.get("name")} died rc={rc} without a result', tail
 	import numpy as np
 	res = json.loads(out.read_text())
 	res['hashes'] = np.fromfile(str(out) + '.hashes', dtype='u8')
 	res['rc'] = rc
+	for k, txt in san_reports[:3]:
+		res['violations'].append(dict(mech=f'sanitizer-{k}', msg=txt[:1500], witness=dict(shard=shard.get('name')), shard=shard.get('name')))
+		res['nviol'] += 1
+		res['viol_per_mech'][f'sanitizer-{k}'] = res['viol_per_mech'].get(f'sanitizer-{k}', 0) + 1
+	if san == 'tsan':
+		import glob
+		res['tsan_logs'] = [Path(f).read_text(errors='replace') for f in glob.glob(str(tmpdir / f'san{idx}') + '*')]
 	res['wall_total'] = time.time() - t0
 	res['log_tail'] = tail
 	return res, None, tail
@@ -211,7 +246,7 @@ def run_property(mod, pid, tier, seed, only_shard=None, jobs=None):
 			s['_i'] = i
 		if only_shard is not None:
 			shards = [s for s in shards if s.get('name') == only_shard or s['_i'] == only_shard]
-		timeout = getattr(mod, 'SHARD_TIMEOUT', {}).get(tier, 900 if tier == 'quick' else 5400)
+		timeout = getattr(mod, 'SHARD_TIMEOUT', {}).get(tier, 420 if tier == 'quick' else 5400)
 		jobs = jobs or getattr(mod, 'JOBS', {}).get(tier, NCPU)
 		with ThreadPoolExecutor(max_workers=jobs) as ex:
 			futs = [ex.submit(_run_one, pid, tier, seed, s, tmpdir, s.get('timeout', timeout)) for s in shards]
@@ -237,6 +272,8 @@ def run_property(mod, pid, tier, seed, only_shard=None, jobs=None):
 				for k, v in res['sets'].items():
 					merged['sets'].setdefault(k, set()).update(_hashable(x) for x in v)
 				merged['hashes'].append(res['hashes'])
+				if res.get('tsan_logs'):
+					merged.setdefault('tsan_logs', []).extend(res['tsan_logs'])
 				inconclusive.extend(res['inconclusive'])
 				if res['rc'] != 0:
 					inconclusive.append(f'shard {s.get("name")} exited rc={res["rc"]}: {res["log_tail"][-400:]}')
